@@ -72,6 +72,8 @@ type NetPlan struct {
 	RedirLoop   bool        `json:"redirLoop,omitempty"`
 	Body        *ReaderPlan `json:"body,omitempty"`
 	StallAt     int         `json:"stallAt"` // byte offset of a stall in the body, -1 = none
+	// Headers: further response headers (name, value).
+	Headers [][2]string `json:"headers,omitempty"`
 	// CLen: declared Content-Length. nil = not declared (-1). A value below
 	// the body length truncates the body there (as a real transport would);
 	// a value above it ends the body with io.ErrUnexpectedEOF.
